@@ -62,6 +62,13 @@ RULE = ("exhaustive: every (haystack, needle) over a 3-letter alphabet {a, b, 0x
         "overlaps), assign(s,n,c), compare over n characters, find, length, eq/lt/assign, the int_type members at the "
         "type limits (all 256 values for char/char8_t); every comparison-like operation on all pairs over {a, b, NUL}; "
         "substr/copy/compare counts for which pos + count wraps around 2^64. "
+        "Fix-miss round 4: HUGE views (ops big*) - views of 2^31-1 .. 2^33+3 characters over an untouched zero-filled "
+        "MAP_NORESERVE mapping with an explicit 'abc'-like prefix, against short views, in both argument orders: compare "
+        "(6 overloads), the six relational operators (also with a C string operand), starts_with/ends_with (view and "
+        "C string), substr/copy/remove_prefix/remove_suffix/operator[]/back with positions and counts at 0..3, n-3..n+1, "
+        "2^31-1..2^31+1, 2^32-1..2^32+2, n-2^31, n-2^32, 2^63, npos; the six search families forwards from n-3..n+1 / "
+        "backwards from 0..5 and with a huge needle; plus (gen_narrow) every pos/count operation on short views with "
+        "positions/counts 2^31+-1, 2^32+k, 2^63+1, 2^64-2^32+k, 2^64-2^31+k (in-range positions in their low 32 bits). "
         "Each case runs in a plain build (adversarial readable guard zones) and an ASan+UBSan build (poisoned guard "
         "zones flush against both ends of every view). non-trivial = distinct case whose impl outcome is ok on a "
         "non-empty haystack")
@@ -70,7 +77,9 @@ TRUSTED_BASE = ["reference leg: libstdc++ 12 std::basic_string_view / std::char_
                 "AddressSanitizer manual poisoning (granule-exact on both sides of each argument block) for the "
                 "'only characters inside the views are read' observation on the compiled code"]
 ASSUMPTIONS = ["LP64: size_t is 64 bits, npos = 2^64-1", "char is signed 8-bit, wchar_t is signed 32-bit (x86-64 Linux)",
-               "view lengths < 2^63 (theorem hypothesis)"]
+               "view lengths < 2^63 (theorem hypothesis)",
+               "big* ops: an anonymous MAP_NORESERVE mapping of (2^33+16) * sizeof(Char) bytes is available and reads as zeros "
+               "(op bigprobe reports a correspondence failure if it is not)"]
 
 
 def L(xs):
